@@ -82,5 +82,5 @@ extern int64_t mpt_stream_seek(MPT_STRUCT(stream) *stream, int64_t pos, int mode
 	qu->len = 0;
 	qu->off = 0;
 	
-	return pos + add;
+	return pos;
 }
